@@ -54,7 +54,7 @@ func (c *Collection) SetWithMeta(_ context.Context, key string, oldCas CAS, newC
 // writeWithMeta writes a document which will be stored with a cas value of newCas.  It still performs the standard CAS check for optimistic concurrency using oldCas, when specified.
 func (c *Collection) writeWithMeta(key string, body []byte, xattrs []byte, oldCas CAS, newCas CAS, exp uint32, isJSON, isDeletion bool) error {
 	var e *event
-	err := c.bucket.inTransaction(func(txn *sql.Tx) error {
+	err := c.bucket.inTransactionThen(func(txn *sql.Tx) error {
 		var prevCas CAS
 		var revSeqNo uint64
 		row := txn.QueryRow(`SELECT cas, revSeqNo FROM documents WHERE collection=?1 AND key=?2`,
@@ -78,13 +78,17 @@ func (c *Collection) writeWithMeta(key string, body []byte, xattrs []byte, oldCa
 			revSeqNo:   revSeqNo,
 		}
 		return c.storeDocument(txn, e)
+	}, func() {
+		if e != nil {
+			c._postNewEvent(e)
+		}
 	})
 
 	if err != nil {
 		return err
 	}
 	if e != nil {
-		c.postNewEvent(e)
+		c.bucket.expManager.scheduleExpirationAtOrBefore(e.exp)
 	}
 	return nil
 }
